@@ -113,7 +113,11 @@ impl WorkerResult {
             *self.excluded_known.entry(k).or_insert(0) += v;
         }
         self.inconclusive.extend(o.inconclusive);
-        self.notes.extend(o.notes);
+        for n in o.notes {
+            if !self.notes.contains(&n) {
+                self.notes.push(n);
+            }
+        }
         self.exhaustive = match (self.exhaustive, o.exhaustive) {
             (None, x) => x,
             (x, None) => x,
@@ -301,6 +305,11 @@ pub fn run_parent(
     }
     let _ = std::fs::remove_dir_all(&tmp);
 
+    // 2b. coverage-guided stage (thorough tier only)
+    if tier == Tier::Thorough && merged.violations.is_empty() {
+        fuzz_stage(id, seed, workers, &mut merged);
+    }
+
     // 3. verdict
     let distinct: BTreeSet<u64> = merged.nontrivial_hashes.iter().copied().collect();
     let mut violations = merged.violations.clone();
@@ -376,4 +385,129 @@ pub fn run_parent(
     } else {
         0
     }
+}
+
+/// Thorough tier, second engine: libFuzzer targets (fuzz/) decode bytes into the same case types
+/// and run the same interpreters and oracles. Crash artifacts are decoded by this binary and
+/// re-executed; only a reproduced failure becomes a violation (with a normal replay file).
+fn fuzz_stage(id: &str, seed: u64, workers: usize, merged: &mut WorkerResult) {
+    let (target, engine) = match id {
+        "C12" => ("fuzz_log", "logfmt"),
+        "C13" | "C14" => ("fuzz_table", "tablefmt"),
+        "C01" | "C03" | "C04" | "C10" => ("fuzz_history", "history"),
+        _ => return,
+    };
+    let root = verif_root();
+    let runs: u64 = std::env::var("VERIF_FUZZ_RUNS").ok().and_then(|s| s.parse().ok()).unwrap_or(match target {
+        "fuzz_history" => 12_000,
+        _ => 25_000,
+    });
+    let build = Command::new("cargo")
+        .args(["+nightly", "fuzz", "build", "--fuzz-dir"])
+        .arg(root.join("fuzz"))
+        .arg(target)
+        .current_dir(root.join("harness"))
+        .env("CARGO_NET_OFFLINE", "true")
+        .stdout(Stdio::null())
+        .stderr(Stdio::piped())
+        .output();
+    match &build {
+        Ok(o) if o.status.success() => {}
+        Ok(o) => {
+            let err = String::from_utf8_lossy(&o.stderr);
+            merged.notes.push(format!("fuzz stage skipped: cargo +nightly fuzz build failed: {}", err.lines().rev().take(3).collect::<Vec<_>>().join(" | ")));
+            return;
+        }
+        Err(e) => {
+            merged.notes.push(format!("fuzz stage skipped: cargo fuzz not runnable: {e}"));
+            return;
+        }
+    }
+    let bin = root.join("fuzz/target/x86_64-unknown-linux-gnu/release").join(target);
+    let work = root.join("fuzz").join(format!("run-{id}-{}", std::process::id()));
+    let _ = std::fs::remove_dir_all(&work);
+    let n = workers.min(8).max(1);
+    let mut children = vec![];
+    for w in 0..n {
+        let corpus = work.join(format!("corpus{w}"));
+        let arts = work.join(format!("artifacts{w}"));
+        let _ = std::fs::create_dir_all(&corpus);
+        let _ = std::fs::create_dir_all(&arts);
+        // seed corpus: pseudo-random inputs of several lengths (a pure function of the seed)
+        let mut x = seed.wrapping_mul(0x9E37_79B9_7F4A_7C15).wrapping_add(w as u64 + 1) | 1;
+        for i in 0..24usize {
+            let len = [16usize, 48, 96, 200, 400, 800][i % 6];
+            let mut buf = Vec::with_capacity(len);
+            while buf.len() < len {
+                x ^= x << 13;
+                x ^= x >> 7;
+                x ^= x << 17;
+                buf.extend_from_slice(&x.to_le_bytes());
+            }
+            let _ = std::fs::write(corpus.join(format!("seed{i}")), &buf[..len]);
+        }
+        let oracle = match id {
+            "C03" => "c03",
+            "C04" => "c04",
+            "C10" => "c10",
+            _ => "c01",
+        };
+        let child = Command::new(&bin)
+            .arg(&corpus)
+            .arg(format!("-runs={}", runs / n as u64))
+            .arg(format!("-seed={}", seed.wrapping_mul(31).wrapping_add(w as u64 + 1) % 2_000_000_000 + 1))
+            .arg("-len_control=0")
+            .arg("-max_len=1200")
+            .arg("-detect_leaks=0")
+            .arg(format!("-artifact_prefix={}/", arts.display()))
+            .env("VERIF_FUZZ_ORACLE", oracle)
+            .current_dir(&work)
+            .stdout(Stdio::null())
+            .stderr(Stdio::piped())
+            .spawn();
+        if let Ok(c) = child {
+            children.push((w, c, arts));
+        }
+    }
+    let mut total_runs = 0u64;
+    let mut cov = 0u64;
+    let mut crashes: Vec<PathBuf> = vec![];
+    for (_w, c, arts) in children {
+        if let Ok(out) = c.wait_with_output() {
+            let err = String::from_utf8_lossy(&out.stderr);
+            for l in err.lines() {
+                if let Some(rest) = l.strip_prefix("Done ") {
+                    total_runs += rest.split(' ').next().and_then(|s| s.parse::<u64>().ok()).unwrap_or(0);
+                }
+                if l.contains("DONE") && l.contains("cov:") {
+                    if let Some(c) = l.split("cov: ").nth(1).and_then(|s| s.split(' ').next()).and_then(|s| s.parse::<u64>().ok()) {
+                        cov = cov.max(c);
+                    }
+                }
+            }
+        }
+        if let Ok(rd) = std::fs::read_dir(&arts) {
+            for e in rd.flatten() {
+                crashes.push(e.path());
+            }
+        }
+    }
+    merged.classes.insert("fuzz_executions".into(), total_runs);
+    merged.classes.insert("fuzz_edge_coverage".into(), cov);
+    merged.evaluations += total_runs;
+    merged.notes.push(format!("fuzz stage: target {target}, {total_runs} executions over {n} processes, {} crash artifacts", crashes.len()));
+    crashes.sort();
+    for art in crashes.iter().take(5) {
+        let Ok(bytes) = std::fs::read(art) else { continue };
+        let body = crate::checks::fuzz_artifact_to_replay(id, engine, &bytes);
+        match crate::checks::replay_value(&body) {
+            Ok(()) => merged.notes.push(format!("fuzz artifact {} did not reproduce through the replay path", art.display())),
+            Err(msg) => {
+                let path = write_replay(id, seed, 99, 0, &body);
+                merged.violations.push(ViolationRec { replay: path, message: format!("(found by the libFuzzer target {target}) {msg}") });
+                break;
+            }
+        }
+    }
+    let _ = std::fs::remove_dir_all(&work);
 }
